@@ -149,7 +149,7 @@ def S(scn):
     t["rejects"] = {(a[0], a[1]) for a in scn["rejects"]}
     t["reenter"] = {}
     for r in scn["reenter"]:
-        t["reenter"].setdefault((r[0], r[1]), []).append(r[2])
+        t["reenter"].setdefault((r[0], r[1]), []).append(r[2])     # int j: log m<j>; "r<k>": remove(own id); "c": complete()
     t["exc"] = set(scn["exc"])
     t["strfails"] = set(scn["strfails"])
     t["levels"] = {int(k): v for k, v in scn["levels"].items()}
@@ -167,7 +167,27 @@ def all_msgs(scn):
         for op in g:
             if op[0] == "l":
                 out.append(op[1])
-    out += [r[2] for r in scn["reenter"]]
+    out += [r[2] for r in scn["reenter"] if isinstance(r[2], int)]
+    return out
+
+
+def group_modes(scn):
+    """stderr mode of every group"""
+    seq = scn.get("stderr_seq")
+    if not seq:
+        return [scn["stderr"]] * len(scn["groups"])
+    return [e["mode"] for e in seq]
+
+
+def inner_closure(scn, i):
+    """message i and every message logged (transitively) from inside sinks while it is processed"""
+    out, todo = [], [i]
+    while todo:
+        x = todo.pop()
+        if x in out:
+            continue
+        out.append(x)
+        todo += [r[2] for r in scn["reenter"] if r[0] == x and isinstance(r[2], int)]
     return out
 
 
@@ -178,14 +198,22 @@ def line_of(scn):
                                          h["dynamic"], h["serialize"]) for h in scn["handlers"]])
     F = lst(["%d,%d,%s,%s" % tuple(f) for f in scn["faults"]])
     A = lst(["%d,%d" % tuple(a) for a in scn["rejects"]])
-    R = lst(["%d,%d,%d" % tuple(r) for r in scn["reenter"]])
+    R = lst(["%d,%d,%s" % tuple(r) for r in scn["reenter"]])
     X = lst([str(i) for i in scn["exc"]])
     Sf = lst([str(i) for i in scn["strfails"]])
     N = lst([str(i) for i in all_msgs(scn)]) if scn["noloop"] else "-"
     L = lst(["%s,%d" % (k, v) for k, v in sorted(scn["levels"].items(), key=lambda kv: int(kv[0]))])
     O = lst(["+".join(("l%d" % op[1]) if op[0] == "l" else "c" if op[0] == "c" else "r%d.%d" % (op[1], op[2])
                       for op in g) for g in scn["groups"]])
-    return "run H=%s F=%s A=%s R=%s X=%s S=%s N=%s L=%s E=%s D=3 O=%s" % (H, F, A, R, X, Sf, N, L, scn["stderr"], O)
+    E = scn["stderr"]
+    if scn.get("stderr_seq"):
+        for g, m in zip(scn["groups"], group_modes(scn)):
+            for op in g:
+                if op[0] == "l":
+                    E += "".join("/%d:%s" % (x, m) for x in inner_closure(scn, op[1]))
+                elif op[0] == "r":
+                    E += "/%d:%s" % (op[2], m)
+    return "run H=%s F=%s A=%s R=%s X=%s S=%s N=%s L=%s E=%s D=3 O=%s" % (H, F, A, R, X, Sf, N, L, E, O)
 
 
 def show_obs(results, events, reg, minlevel, sinks):
@@ -244,9 +272,10 @@ def spec_run(scn):
     """the property evaluated on the scenario: list of observation strings (None when the scenario is
     outside the property's hypotheses)"""
     t = S(scn)
-    if scn["stderr"] not in ("ok", "absent", "OSError"):
+    modes = group_modes(scn)
+    if any(m not in ("ok", "absent", "OSError") for m in modes):
         return None
-    reporting = scn["stderr"] == "ok"
+    state = {"reporting": True}
     reg = [h["id"] for h in scn["handlers"]]
     sinks = {h: [] for h in reg}
     pending = {h: [] for h in reg}
@@ -254,7 +283,7 @@ def spec_run(scn):
     obs = []
 
     def report(events, h, msg, kind, src):
-        if reporting:
+        if state["reporting"]:        # on the stderr of THIS moment; absent / OSError: silent, never propagated
             ph = msg is not None and msg in t["strfails"]
             events.append(ev_report(h, msg, kind, ph, src))
 
@@ -274,7 +303,7 @@ def spec_run(scn):
         Returns the error kind that reaches the caller of this logging call, or None."""
         if not reg or level_of(t, i) < min(t["handlers"][h]["level"] for h in reg):
             return None
-        for h in reg:
+        for h in list(reg):               # the registry as it is when the call starts
             c = t["handlers"][h]
             out = spec_outcome(t, h, i, False)
             err = None
@@ -290,10 +319,18 @@ def spec_run(scn):
                         pending[h].append(i)
                 else:
                     busy.add(h)
-                    for j in t["reenter"].get((i, h), []):
-                        err = spec_log(events, j, busy)     # the sink calls logger.info(...): a whole _log
+                    for a in t["reenter"].get((i, h), []):
+                        if isinstance(a, int):
+                            err = spec_log(events, a, busy)    # the sink calls logger.info(...): a whole _log
+                        elif a == "c":
+                            err = "RuntimeError"               # logger.complete() from inside its own sink: detected
+                        elif h not in reg:
+                            err = "ValueError"                 # logger.remove(own id) twice
+                        else:
+                            reg.remove(h)                      # unpublished first, "removed nonetheless" …
+                            err = "RuntimeError"               # … then stop() on a running sink: detected
                         if err is not None:
-                            break                          # escapes from the sink
+                            break                              # escapes from the sink
                     busy.discard(h)
                     if err is None:
                         err = spec_sink_write(t, scn, h, i, sinks, tasks)
@@ -304,8 +341,9 @@ def spec_run(scn):
                     return err                        # reaches the caller; earlier handlers are done
         return None
 
-    for g in scn["groups"]:
+    for gi, g in enumerate(scn["groups"]):
         results, events = [], []
+        state["reporting"] = modes[gi] == "ok"
         for op in g:
             if op[0] == "l":
                 err = spec_log(events, op[1], set())
@@ -331,7 +369,7 @@ def spec_run(scn):
                 if hid not in reg:
                     results.append("ValueError")
                     continue
-                reg = [x for x in reg if x != hid]            # removed nonetheless
+                reg.remove(hid)                               # removed nonetheless
                 c = t["handlers"][hid]
                 if c["enqueue"]:
                     drain(events, hid)
@@ -344,13 +382,21 @@ def spec_run(scn):
 
 # ----------------------------------------------------------------------------- implementation runner
 class Recorder:
-    """stand-in for sys.stderr"""
+    """stand-in for sys.stderr; `retired` = it is no longer sys.stderr (any write to it is a stale write),
+    `closed` = like a closed file: writing raises ValueError"""
 
     def __init__(self, mode):
         self.mode = mode
         self.chunks = []
+        self.retired = False
+        self.closed = False
+        self.stale = 0
 
     def write(self, text):
+        if self.retired:
+            self.stale += 1
+        if self.closed:
+            raise ValueError("I/O operation on closed file.")
         if self.mode == "ok":
             self.chunks.append((threading.current_thread().name, text))
             return len(text)
@@ -459,6 +505,7 @@ class Impl:
         self.cur_k = -1
         self.loop_errors = []
         self.last_i = {}
+        self.old_recs = []
 
     # -- user callables ------------------------------------------------------------------------
     def fault(self, i, h, stage):
@@ -506,8 +553,14 @@ class Impl:
         """common body of every synchronous sink"""
         i = message.record["extra"]["i"]
         c = self.t["handlers"][h]
-        for j in self.t["reenter"].get((i, h), []):
-            self.log(j)                       # the logger used from inside its own sink
+        for a in self.t["reenter"].get((i, h), []):      # the logger used from inside its own sink
+            if isinstance(a, int):
+                self.log(a)
+            elif a == "c":
+                self.lg.complete()
+            else:
+                self.cur_k = int(a[1:])
+                self.lg.remove(h)
         self.fault(i, h, "write")
         self.last_i[h] = i
         return i
@@ -632,7 +685,10 @@ class Impl:
             asyncio.get_running_loop().set_exception_handler(self.loop_handler)
         for h in scn["handlers"]:
             self.add(h)              # inside the loop: an enqueue coroutine sink captures the running loop
-        for g in scn["groups"]:
+        seq = scn.get("stderr_seq")
+        for gi, g in enumerate(scn["groups"]):
+            if seq:
+                self.switch_stderr(seq[gi])
             results = []
             for op in g:
                 try:
@@ -653,9 +709,25 @@ class Impl:
             self.loop_errors = []
             if junk:
                 events.append("JUNK:" + repr(junk[0][:80]))
+            stale = sum(r.stale for r in self.old_recs)
+            if stale:
+                events.append("STALE-STDERR-WRITES:%d" % stale)     # a stream that is no longer sys.stderr was written
+                for r in self.old_recs:
+                    r.stale = 0
             ml = self.min_level()
             obs.append(show_obs(results, events, self.registry(), ml, self.sinks()))
         return obs
+
+    def switch_stderr(self, e):
+        """what a program does between two logging calls: redirect_stderr / per-call capture / re-opened streams"""
+        if e.get("fresh") or (self.rec is None) != (e["mode"] == "absent") or \
+                (self.rec is not None and self.rec.mode != e["mode"]):
+            if self.rec is not None:
+                self.rec.retired = True
+                self.rec.closed = bool(e.get("close_prev"))
+                self.old_recs.append(self.rec)
+            self.rec = None if e["mode"] == "absent" else Recorder(e["mode"])
+            sys.stderr = self.rec
 
     def cleanup(self):
         self.cur_k = -1
@@ -931,9 +1003,12 @@ def _closed_loop_runner(params, box):
                 results.append("ok")
             except Exception as e:  # noqa
                 results.append(kind_of(e))
-            aw = lg.complete()
-            if i < params["before"]:
-                loop.run_until_complete(aw)
+            try:
+                aw = lg.complete()
+                if i < params["before"]:
+                    loop.run_until_complete(aw)
+            except Exception as e:  # noqa
+                results.append("complete:" + kind_of(e))
         events, junk = parse_reports(rec.take())
         box["obs"] = {"results": results, "events": sorted(events),
                       "sinks": {str(h): sinks[h] for h in sinks}, "junk": [j[:80] for j in junk],
@@ -1079,6 +1154,8 @@ def scn_of_point(pt, rng):
             else:
                 scn["faults"].append([i, pos, stage, kind_err])
     groups.append([["l", n], ["c"]])       # one more good message: everybody must be usable
+    if bin(w).count("1") >= 2 and rng.chance(60):
+        scn["stderr_seq"] = gen_stderr_seq(rng, len(groups), "ok")
     return scn
 
 
@@ -1147,11 +1224,22 @@ def random_scn(rng):
         i = rng.below(nm)
         isolate = rng.chance(35)           # the other handlers filter the inner messages out
         inner = [100 + i, 200 + i] if rng.chance(40) else [100 + i]
-        for j in inner:
-            scn["reenter"].append([i, c["id"], j])
+        acts = list(inner)
+        r = rng.below(100)
+        if r < 18:
+            acts.append("r60")               # a one-shot sink: logger.remove(<own id>) from inside write
+        elif r < 26:
+            acts = ["r60"]
+        elif r < 36:
+            acts.append("c")                 # logger.complete() from inside the sink
+        elif r < 42:
+            acts = ["c"]
+        inner = [a for a in acts if isinstance(a, int)]
+        for a in acts:
+            scn["reenter"].append([i, c["id"], a])
         # second level: another handler's sink logs again while it processes the first inner message
         cand2 = [c2 for c2 in cand if c2["id"] != c["id"]]
-        if cand2 and not isolate and rng.chance(30):
+        if cand2 and not isolate and inner and inner[0] == 100 + i and rng.chance(30):
             c2 = rng.choice(cand2)
             scn["reenter"].append([100 + i, c2["id"], 300 + i])
             inner.append(300 + i)
@@ -1187,7 +1275,29 @@ def random_scn(rng):
                 scn["faults"].append([k, hid, "stop", rng.choice(ERR_NAMES)])
         if rng.chance(30):
             groups.insert(min(at + 1, len(groups)), [["r", hid, 51]])    # removing twice: ValueError
+    if tame and rng.chance(30):
+        scn["stderr_seq"] = gen_stderr_seq(rng, len(groups), scn["stderr"])
     return scn
+
+
+def gen_stderr_seq(rng, ngroups, first):
+    """sys.stderr re-assigned between logging calls: a fresh stream (the old one possibly closed), none, a broken one"""
+    seq, mode = [], first
+    for g in range(ngroups):
+        e = {"mode": mode, "fresh": 0, "close_prev": 0}
+        if g > 0:
+            r = rng.below(100)
+            if r < 55:
+                e = {"mode": "ok", "fresh": 1, "close_prev": int(rng.chance(50))}
+            elif r < 65:
+                e = {"mode": "absent", "fresh": 1, "close_prev": int(rng.chance(50))}
+            elif r < 75:
+                e = {"mode": "OSError", "fresh": 1, "close_prev": int(rng.chance(50))}
+            else:
+                e = {"mode": mode, "fresh": 0, "close_prev": 0}
+        mode = e["mode"]
+        seq.append(e)
+    return seq
 
 
 def is_nontrivial(scn):
@@ -1226,6 +1336,22 @@ CORPUS = [
      "faults": [[200, 2, "write", "KeyError"]], "rejects": [],
      "reenter": [[0, 1, 100], [1, 1, 200], [1, 1, 201], [100, 2, 300]], "exc": [], "strfails": [], "levels": {},
      "noloop": 0, "stderr": "ok", "groups": [[["l", 0], ["c"]], [["l", 1], ["c"]], [["l", 2], ["c"]]]},
+    # one-shot sinks: logger.remove(<own id>) from inside write (catch=True, then catch=False), logger.complete() from
+    # inside write; the handler is gone afterwards, nobody blocks
+    {"handlers": [base_handler(0), base_handler(1, kind="stream"), base_handler(2, catch=0, kind="standard"),
+                  base_handler(3, kind="file")],
+     "faults": [], "rejects": [], "reenter": [[0, 1, "r60"], [1, 2, 101], [1, 2, "r61"], [2, 3, "c"]],
+     "exc": [], "strfails": [], "levels": {}, "noloop": 0, "stderr": "ok",
+     "groups": [[["l", 0], ["c"]], [["l", 1], ["c"]], [["l", 2], ["c"]], [["r", 1, 70]], [["l", 3], ["c"]]]},
+    # the same handler fails three times while sys.stderr is re-assigned in between (fresh stream, the previous one
+    # closed; then no stderr at all; then a fresh one again): every report on the stderr of its moment
+    {"handlers": [base_handler(0, kind="streamFlush"), base_handler(1, enqueue=1), base_handler(2)],
+     "faults": [[0, 0, "write", "ValueError"], [1, 0, "flush", "OSError"], [1, 1, "write", "KeyError"],
+                [2, 0, "formatMap", "KeyError"], [3, 0, "write", "Other"], [3, 1, "get", "TypeError"]],
+     "rejects": [], "reenter": [], "exc": [], "strfails": [], "levels": {}, "noloop": 0, "stderr": "ok",
+     "stderr_seq": [{"mode": "ok", "fresh": 0, "close_prev": 0}, {"mode": "ok", "fresh": 1, "close_prev": 1},
+                    {"mode": "absent", "fresh": 1, "close_prev": 1}, {"mode": "ok", "fresh": 1, "close_prev": 0}],
+     "groups": [[["l", 0], ["c"]], [["l", 1], ["c"]], [["l", 2], ["c"]], [["l", 3], ["c"]]]},
     # a sink that logs to its own handler twice in one write (the first detection must not disarm the second)
     {"handlers": [base_handler(0, kind="streamFlush")], "faults": [], "rejects": [],
      "reenter": [[0, 0, 100], [0, 0, 200], [1, 0, 101]], "exc": [], "strfails": [], "levels": {},
@@ -1372,6 +1498,10 @@ def run(ctx):
         ctx.case(line_of(scn), nontrivial=is_nontrivial(scn))
         ctx.traces_validated += 1
         ctx.stat("stderr:" + scn["stderr"])
+        if scn.get("stderr_seq"):
+            ctx.stat("stderr_reassigned_between_messages")
+        if any(not isinstance(r[2], int) for r in scn["reenter"]):
+            ctx.stat("sink_calls_remove_or_complete")
         for f in scn["faults"]:
             ctx.stat("fault:" + f[2])
         for h in scn["handlers"]:
